@@ -194,6 +194,39 @@ pub struct WorkerReport {
 
 pub const KEEP_RUN_HASHES: u64 = 4096;
 
+// ----- liveness: a run that makes no progress is a finding, not a stuck batch ---------
+
+pub static PROGRESS: std::sync::atomic::AtomicU64 = std::sync::atomic::AtomicU64::new(0);
+pub const EXIT_HANG: i32 = 98;
+pub const HANG_SECS: u64 = 60;
+pub const CLASS_HANG: &str = "I-live|a simulated run made no progress for 60 s of wall time (unbounded loop in the code under test)";
+pub const CLASS_ABORT: &str = "I-abort|the process executing the simulated run died abnormally (abort, stack overflow, out of memory)";
+
+/// A hang is infinite, so this is not timing sensitive: ordinary runs take
+/// milliseconds, the largest ones well under a second.
+pub fn start_watchdog() {
+    use std::sync::atomic::Ordering::Relaxed;
+    std::thread::spawn(|| {
+        let mut last = PROGRESS.load(Relaxed);
+        let mut since = std::time::Instant::now();
+        loop {
+            std::thread::sleep(std::time::Duration::from_millis(500));
+            let now = PROGRESS.load(Relaxed);
+            if now != last {
+                last = now;
+                since = std::time::Instant::now();
+            } else if since.elapsed().as_secs() >= HANG_SECS {
+                eprintln!("watchdog: no progress for {HANG_SECS} s, giving up on this process");
+                std::process::exit(EXIT_HANG);
+            }
+        }
+    });
+}
+
+pub fn current_index_file(pid: u32) -> std::path::PathBuf {
+    crate::util::scratch_base().join(format!("cur-{}", pid))
+}
+
 pub fn sig_sample_mask(total_runs: u64) -> u64 {
     if total_runs > 4_000_000 {
         15
@@ -203,6 +236,7 @@ pub fn sig_sample_mask(total_runs: u64) -> u64 {
 }
 
 fn execute_guarded<E: Engine>(engine: &mut E, plan: &E::Plan, verbose: bool) -> Recorder {
+    PROGRESS.fetch_add(1, std::sync::atomic::Ordering::Relaxed);
     let mut rec = Recorder::new(E::PROPERTY, verbose);
     let result = crate::util::catch(|| engine.execute(plan, &mut rec));
     if let Err(panic) = result {
@@ -251,6 +285,11 @@ pub fn worker<E: Engine>(
     let started = std::time::Instant::now();
     let mut engine = E::new(tier);
     let total = engine.runs(tier);
+    // where we are, for whoever has to explain our death
+    let _ = std::fs::create_dir_all(crate::util::scratch_base());
+    let cur_path = current_index_file(std::process::id());
+    let cur_file = std::fs::File::create(&cur_path).ok();
+    start_watchdog();
     let limit = limit.map_or(total, |l| l.min(total));
     let mut report = WorkerReport {
         engine: E::NAME.to_string(),
@@ -261,6 +300,10 @@ pub fn worker<E: Engine>(
     let mut index = first;
     while index < limit {
         let seed = run_seed(master_seed, E::NAME, index);
+        if let Some(f) = &cur_file {
+            use std::os::unix::fs::FileExt;
+            let _ = f.write_at(&index.to_le_bytes(), 0);
+        }
         let plan = engine.generate(index, seed, tier);
         let rec = execute_guarded(&mut engine, &plan, false);
         report.runs += 1;
@@ -318,6 +361,7 @@ pub fn worker<E: Engine>(
         }
         index += stride;
     }
+    let _ = std::fs::remove_file(&cur_path);
     report.sigs = sigs.into_iter().collect();
     report.busy_s = started.elapsed().as_secs_f64();
     let text = serde_json::to_string(&report).expect("report serialises");
@@ -342,4 +386,25 @@ pub fn replay<E: Engine>(file: &ReplayFile, verbose: bool) -> Option<Violation> 
     }
     println!("log-hash {}", rec.hash.hex());
     rec.violation
+}
+
+/// The plan of run `index`, for attributing a worker's death (driver side)
+pub fn plan_of<E: Engine>(tier: Tier, master_seed: u64, index: u64) -> ReplayFile {
+    let engine = E::new(tier);
+    let seed = run_seed(master_seed, E::NAME, index);
+    let plan = engine.generate(index, seed, tier);
+    let size = engine.plan_size(&plan);
+    ReplayFile {
+        engine: E::NAME.to_string(),
+        property: E::PROPERTY.to_string(),
+        class: String::new(),
+        detail: String::new(),
+        master_seed,
+        run_index: index,
+        run_seed: seed,
+        original_size: size,
+        minimised_size: size,
+        shrink_executions: 0,
+        plan: serde_json::to_value(&plan).unwrap_or(Value::Null),
+    }
 }
